@@ -2,6 +2,7 @@ import ComposeVerif.Ops.Common
 import ComposeVerif.Model.Consistency
 import ComposeVerif.Spec.Consistency
 import ComposeVerif.Model.Validate
+import ComposeVerif.Model.NormalizeDeps
 /-! line-protocol ops for C10:
 `c10.consistency` (model of `loader.checkConsistency` + outcomes over all iteration orders + spec decision),
 `c10.cycleBatch` (model of `graph.CheckCycle` over a range of digraphs),
@@ -92,8 +93,7 @@ def consistency : Handler := fun args =>
   Json.mkObj [("out", outJson p (checkConsistency p)),
               ("alts", altsJson p (consistencyAlts p)),
               ("consistent", Json.bool (consistentB p)),
-              ("broken", Json.arr ((brokenRules p).map Json.str).toArray),
-              ("ambiguous", Json.bool (ambiguousSelfDep p))]
+              ("broken", Json.arr ((brokenRules p).map Json.str).toArray)]
 
 /-- `graph.CheckCycle` alone -/
 def cycle : Handler := fun args =>
@@ -143,8 +143,16 @@ def validateOp : Handler := fun args =>
                 ("alts", Json.arr (((CV.Validate.failures t).map voutJson).toArray)),
                 ("valid", Json.bool (CV.Validate.validTreeB t))]
 
+/-- `depends_on` of one service after `loader.Normalize` (sorted by name) -/
+def normDepsOp : Handler := fun args =>
+  let r : RawRefs :=
+    { dependsOn := (getArr args "depends_on").map (fun d => (getStr d "name", getBool d "required")),
+      links := getStrList args "links", namespaces := getStrList args "namespaces", volumesFrom := getStrList args "volumes_from" }
+  let out := (normDeps r).toArray.qsort (fun a b => a.1 < b.1)
+  Json.mkObj [("deps", Json.arr (out.map fun d => Json.arr #[Json.str d.1, Json.bool d.2]))]
+
 def handlers : List (String × Handler) :=
   [("c10.consistency", consistency), ("c10.cycle", cycle), ("c10.consistent", consistent),
-   ("c10.cycleBatch", cycleBatch), ("c10.validate", validateOp)]
+   ("c10.cycleBatch", cycleBatch), ("c10.validate", validateOp), ("c10.normDeps", normDepsOp)]
 
 end CV.Ops.C10
